@@ -2,6 +2,7 @@ package c04shared
 
 import (
 	"crypto/aes"
+	"crypto/sha256"
 	"encoding/binary"
 	"errors"
 	"fmt"
@@ -19,11 +20,37 @@ import (
 // Queue collects driver request lines with the implementation's answer and compares in one batch.
 type Queue struct {
 	lines, impls []string
+	bytes        int
 }
 
 func (q *Queue) Add(line, impl string) {
 	q.lines = append(q.lines, line)
 	q.impls = append(q.impls, impl)
+	q.bytes += len(line) + len(impl)
+}
+
+// MaybeFlush flushes once more than 24 MB of requests are pending (keeps thorough runs in memory
+// bounds). An absent model driver is not an error here: the monitor goes on, Flush at the end reports it.
+func (q *Queue) MaybeFlush(c *hc.Ctx) error {
+	if q.bytes < 24<<20 {
+		return nil
+	}
+	err := q.Flush(c)
+	if errors.Is(err, hc.ErrNoModel) {
+		return nil
+	}
+	return err
+}
+
+// Sig is a short signature of an input line for hc.Ctx.Eval (distinctness is counted on it): a
+// readable prefix plus a digest of the whole line.
+func Sig(line string) string {
+	h := sha256.Sum256([]byte(line))
+	p := line
+	if len(p) > 160 {
+		p = p[:160] + "…"
+	}
+	return fmt.Sprintf("%s #%x", p, h[:8])
 }
 
 func (q *Queue) Len() int { return len(q.lines) }
@@ -32,6 +59,7 @@ func (q *Queue) Len() int { return len(q.lines) }
 func (q *Queue) Flush(c *hc.Ctx) error {
 	outs, err := c.Drv.Batch(q.lines)
 	if err != nil {
+		q.lines, q.impls, q.bytes = nil, nil, 0
 		return err
 	}
 	for i, o := range outs {
@@ -39,7 +67,7 @@ func (q *Queue) Flush(c *hc.Ctx) error {
 			c.Res.TracesValidated++
 		}
 	}
-	q.lines, q.impls = nil, nil
+	q.lines, q.impls, q.bytes = nil, nil, 0
 	return nil
 }
 
